@@ -298,6 +298,30 @@ def check(case, ctx):
                 return
 
 
+        # the same plain scalar as the only node of a document with explicit
+        # markers / directives: the typing rules are those of the property
+        # whatever the document declares about itself
+        for pre, post in (('--- ', ''), ('---\n', '\n...\n'), ('%YAML 1.1\n---\n', '\n'),
+                          ('%YAML 1.2\n--- ', '\n'),
+                          ('%TAG !e! tag:example.com,2000:\n---\n', '\n')):
+            doc = pre + s + post
+            try:
+                node = yaml.compose(doc, Loader=yaml.BaseLoader)
+                if not (isinstance(node, yaml.ScalarNode) and node.value == s):
+                    continue
+                v3 = _load(doc)
+            except Exception as e:
+                ctx.count('directive_doc_raises_' + type(e).__name__)
+                continue
+            ctx.count('directive_docs')
+            same = type(v3) is type(v) and (v3 == v or (
+                isinstance(v, float) and math.isnan(v) and math.isnan(v3)))
+            if not same:
+                ctx.finding('context', 'plain_scalar_typed_differently_after_directive',
+                            'alone %r loads as %r, as %r it loads as %r' % (s, v, doc, v3))
+                return
+
+
 # ---------------------------------------------------------------------
 SIGMA = '017.eE+-_:xbo'
 KW = sorted(set('truefalsyno' + 'TRUEFALSYNO' + 'inaINA' + 'ofOF' + 'ulUL'
